@@ -40,6 +40,7 @@ type C15Case struct {
 	Attr  string `json:"attr,omitempty"`
 	Sym   string `json:"sym,omitempty"`
 	Sharp bool   `json:"sharp,omitempty"`
+	Over  bool   `json:"over,omitempty"` // cli-attr: the report goes to -o FILE, and FILE already holds a longer, older report
 }
 
 func safely(f func() *Violation) (v *Violation) {
@@ -211,7 +212,19 @@ func checkC15(c C15Case) *Violation {
 			if f := sharpFlag(c.Sharp, len(c.Root)+len(c.Attr)); f != "" {
 				argv = append(argv, f)
 			}
-			res := crd("", argv...)
+			var res Result
+			if c.Over {
+				// the report is what the file says afterwards: nothing of an older report may be left in it
+				old := "attribute:\n  name: Major14\n  degree: \"14\"\nroot: B\napplied: A\nsemitone: 23\nsemitone_without_octave: 11\noctave_diff: 2\n# an older report\nnote: kept from last time\noctave_diff: 2\n"
+				argv = append(argv, "-o", "@report.yml")
+				res = Run{Argv: argv, Files: map[string]string{"report.yml": old}, OutArg: "report.yml", NoStdin: true}.Exec()
+				if res.Exit == 0 && !res.HasOut {
+					return vio("describe-output", "crd %s: no report file", strings.Join(argv, " "))
+				}
+				res.Stdout = res.OutFile
+			} else {
+				res = crd("", argv...)
+			}
 			if v := cleanOutcome(res); v != nil {
 				return v
 			}
@@ -220,7 +233,7 @@ func checkC15(c C15Case) *Violation {
 			}
 			var m map[string]any
 			if err := yaml.Unmarshal(res.Stdout, &m); err != nil {
-				return vio("describe-output", "%v", err)
+				return vio("describe-output", "crd %s: %v\n%s", strings.Join(argv, " "), err, res.Stdout)
 			}
 			return checkAttrInfo(m, rn, iv, c.Sharp, "crd "+strings.Join(argv, " "))
 		case "cli-chord":
@@ -335,6 +348,9 @@ func TestC15(t *testing.T) {
 			for _, sharp := range []bool{false, true} {
 				if j%step == 0 {
 					run(C15Case{Kind: "cli-attr", Root: root.String(), Attr: a.Name, Sharp: sharp}, true, "cli-attr-describe")
+					if j%(step*4) == 0 {
+						run(C15Case{Kind: "cli-attr", Root: root.String(), Attr: a.Name, Sharp: sharp, Over: true}, true, "cli-attr-describe-over-an-older-report")
+					}
 				}
 				j++
 			}
